@@ -22,28 +22,45 @@ STYLE_PROPS = ["color", "width", "background", "--custom"]
 RULE = ("cases drawn from one PRNG (VERIF_SEED). view: a random tree (depth <= 3) of div/span/section/input/br/img/"
         "textarea/title/script/style built with the tachys builder API, with generated strings as String children, "
         "char children, integer children, unit placeholders, string / boolean / typed-id attributes, class strings, "
-        "class toggles, style strings and style properties — each string carried by String or by any other Rust type that "
-        "implements the position's trait (&str, &String, Arc<str>, Cow, Oco, Option<..>, closures returning these, "
+        "class toggles, style strings and style properties — each string carried by String or by any other Rust type "
+        "and representation that implements the position's trait (&'static str, &String, Arc<str>, Cow::Owned / "
+        "Cow::Borrowed, Oco::Owned / Oco::Borrowed / Oco::Counted, Option<..> of these, closures returning these, "
         "ArcRwSignal, ArcMemo; style property keys as String / &str / Arc<str>) — rendered by RenderHtml::to_html(); "
-        "stream: the same views with Suspend-wrapped children, streamed in order / out of order under oneshot-controlled "
-        "schedules; document: <Title>, "
+        "stream: the same views with Suspend-wrapped children, streamed in order / out of order (also with the branch "
+        "markers of the islands router) under oneshot-controlled schedules; document: <Title>, "
         "<Meta name content>, <Link href>, <Html attr:lang>, <Body attr:class> of leptos_meta plus a body view, "
         "rendered under a real ServerMetaContext and passed through the real inject_meta_context over a shell that varies "
         "(with / without the <!--HEAD--> marker, with a literal <title> of its own before / after it, the first chunk ending "
         "anywhere inside the body); "
+        "metadoc: a whole view!-built document (<html><head><meta charset/><MetaTags/></head><body>) whose body is a random "
+        "view with leptos_meta components anywhere in it — Title, Meta (5 prop sets), Link (3 prop sets up to all 16 "
+        "props), Stylesheet, Script / Style (attributes and raw-text children), Html, Body, and eight components with "
+        "hostile literal props — every prop in each representation of Oco / TextProp, also below Suspend boundaries "
+        "that resolve before or after the first chunk, streamed in order / out of order through inject_meta_context; "
+        "keyed: keyed lists (String key, structured key, leptos <For/>) rendered with branch markers; "
         "static: thirteen fixed view! invocations whose hostile strings are literals (top-level builder path and nested, "
         "macro-inlined inert path); "
+        "static-grid: every syntactic form of a text-like child the macro accepts (bare literal, {\"lit\"}, {{\"lit\"}}, "
+        "{(\"lit\")}, {'c'}, {1}, const, concat!, String / to_string expressions, closure, Option, adjacent mixtures: 23 "
+        "forms) in each of 12 positions (root of the view!, nested static subtrees, next to a dynamic attribute / "
+        "sibling, inside textarea / script / style, between elements), all 276 combinations every run, and every form "
+        "of a literal attribute value (attr=\"lit\", {\"lit\"}, (\"lit\"), const, concat!, String expression; title / "
+        "class / style / id / data-*: 15 forms) in 7 positions (root, nested static, next to a dynamic child / "
+        "attribute, on input and textarea), all 105 combinations; "
         "template: fourteen view! templates (text child, attribute, class, style, href, input value, Option child, "
         "list item, textarea, class: toggle, custom element, title, closure child, scope class `class = expr,`) with the generated string in the "
         "dynamic slot. Strings come from an adversarial alphabet (< > & \" ' / = ` NUL, <!--, -->, ]]>, </script, "
-        "</title, </textarea, </style, <script, character-reference look-alikes such as &lt; &amp; &#60; &notit;, "
-        "CR/LF, Unicode whitespace, astral characters) plus random scalar values. Non-trivial = some string of the "
+        "</title, </textarea, </style, <script, <body, </head>, <!--HEAD-->, character-reference look-alikes such as "
+        "&lt; &amp; &#60; &notit;, CR/LF, Unicode whitespace, astral characters) plus random scalar values. "
+        "Non-trivial = some string of the "
         "case contains a character that needs escaping in its position; distinct = distinct case hash.")
 TRUSTED = [
     "Coq 8.16.1 kernel (coqc); no axioms: every theorem of Properties_C06.v is 'Closed under the global context'",
     "extraction to OCaml with ExtrOcamlBasic only, ocamlfind ocamlopt 4.13.1, extract/driver.ml sexp I/O",
     "harness/ssr/src/c06.rs (Rust) building the views with tachys' public builder API (AnyView / AnyAttribute erasure), "
-    "leptos' view! macro and leptos_meta's components",
+    "leptos' view! macro and leptos_meta's components; for streamed leptos_meta documents it also renders the case "
+    "with every data string replaced by a word (equal strings by equal words) for the oracle's non-interference "
+    "comparison; tachys is compiled with its `islands` feature (keys of keyed lists in branch comments)",
     "modelled, not verified: html_escape::{encode_text, encode_double_quoted_attribute} (Html/Escape.v, byte-level "
     "transcription of html-escape 0.2.13, compared with the real crate on every case) and str::trim's White_Space set",
     "the HTML parser of the theorems (Html/Tokenizer.v) is a partial transcription of the WHATWG algorithm: it "
@@ -61,6 +78,14 @@ ASSUMPTIONS = [
     "and trimmed with Rust's str::trim; attribute and tag names are program text, not data; the generator uses "
     "distinct attribute names per element, at most one child in <title> and no leading newline in <textarea>",
     "inner_html is raw by contract and <noscript> is outside the property text; both are not generated",
+    "streamed leptos_meta documents: components that sit below a Suspend boundary are registered only if the boundary "
+    "resolves before the first chunk is taken (documented behaviour of inject_meta_context): the oracle demands the "
+    "synchronous components in order and accepts each asynchronous one present or absent, exactly as written; "
+    "scripts the framework itself adds to the body (out-of-order replacement) are not part of the view, but the "
+    "number and place of all elements must not depend on the data (comparison with the neutral rendering); at most "
+    "one <Html/> and one <Body/> per document; the nonce of out-of-order scripts is server-generated, not data",
+    "branch markers (islands router): views with textarea / title / script / style are streamed without them (a "
+    "marker comment of a type-erased child is text there, whatever the data)",
 ]
 
 PIECES = ["<", ">", "&", '"', "'", "/", "=", "`", "\0", "<!--", "-->", "--!>", "]]>", "<![CDATA[", "</script", "</script>",
@@ -201,12 +226,16 @@ def gen_stream(rng):
         v = [2, 0, [], [[0, b(text(rng))], [5, 0, v], [0, b(text(rng))]]]
         counter[0] = 1
     n = counter[0]
-    mode = rng.randint(0, 1)
-    if mode == 1 and suspend_in_raw(v):
+    mode = rng.choice([0, 1, 0, 1, 2, 3])        # 2, 3: the same with branch markers (islands router)
+    if mode & 1 and suspend_in_raw(v):
         # an out-of-order placeholder inside script / style / textarea is a comment that is not a
         # comment there, whatever the data (C07's domain): asynchronous children of text-only
         # elements are streamed in order only
-        mode = 0
+        mode -= 1
+    if mode & 2 and has_tag(v, (6, 7, 8, 9)):
+        # the branch markers of type-erased children are comments: inside textarea / title / script /
+        # style they are text, whatever the data (not this property's concern)
+        mode -= 2
     sched = []
     order = list(range(n))
     rng.shuffle(order)
@@ -341,10 +370,138 @@ N_STATIC = 13
 N_TEMPLATES = 14
 
 
+def gen_keyed(rng):
+    rows = [b(text(rng)) for _ in range(rng.choice([0, 1, 2, 2, 3, 4]))]
+    if rows and rng.random() < 0.5:
+        rows[rng.randrange(len(rows))] = b(rng.choice(["-->", "--!>", "->", ">", "--"]).join(
+            text(rng, 3) for _ in range(rng.randint(2, 3))))
+    return [9, rng.randrange(3), rng.randrange(3), rows]
+
+
+def keyed_expect(rows):
+    T = lambda x: ("text", x)
+    return [("el", "ul", [], [("el", "li", [], [T(norm_body(s_of(r)) if r else " ")]) for r in rows]),
+            ("el", "p", [], [T("after")])]
+
+
+# ---- view! child forms x positions (harness: static_grid / grid_positions)
+_L0 = "<b>x</b>&amp;\"'"
+_L1 = "</textarea></style><img src=x onerror=alert(1)>"
+_L2 = "<!-- --> ]]> &lt;"
+_L3 = "</span></div><script>alert(1)</script>"
+# (source form, the texts it stands for)
+GRID_CHILDREN = [
+    ('"L0"', [_L0]), ('{"L0"}', [_L0]), ('{{"L0"}}', [_L0]), ('{("L0")}', [_L0]), ('{String::from("L0")}', [_L0]),
+    ("{CONST_L0}", [_L0]), ('"L1"', [_L1]), ('{"L1"}', [_L1]), ('{{"L1"}}', [_L1]), ('{"L1".to_string()}', [_L1]),
+    ('"L3"', [_L3]), ('{"L3"}', [_L3]), ("{'<'}", ["<"]), ("{'&'}", ["&"]), ("{1}", ["1"]), ('{"L2"}', [_L2]),
+    ('"L2"', [_L2]), ('{concat!("<i>", "&lt;")}', ["<i>&lt;"]), ('"a<" {"<b>"}', ["a<", "<b>"]),
+    ('{"<b>"} {"</b>"}', ["<b>", "</b>"]), ('{move || "L0"}', [_L0]), ('{Some("L0")}', [_L0]),
+    ('"L0" {"L1"} "L2"', [_L0, _L1, _L2]),
+]
+GRID_POSITIONS = ["<div>C</div>", "<div><span>C</span></div>", "<section><div><p>C</p></div><br/></section>",
+                  '<div><span class="c" title="t">C</span></div>', "<div><span title=s>C</span></div>",
+                  "<div><span>C{s}</span></div>", "<div><textarea>C</textarea></div>", "<textarea>C</textarea>",
+                  "<div><script>C</script></div>", "<div><style>C</style></div>", '<div><b>"x"</b>C<i>"y"</i></div>',
+                  '<ul><li>C</li><li>"two"</li></ul>']
+
+
+def grid_expect(c, p, s):
+    texts = GRID_CHILDREN[c][1]
+    T = lambda x: ("text", x)
+    E = lambda name, attrs, kids: ("el", name, attrs, kids)
+    body = [T(norm_body(t)) for t in texts]
+    raw = "".join(texts)
+    rawk = [T(norm_attr(raw))]
+    if p == 0:
+        return [E("div", [], body)]
+    if p == 1:
+        return [E("div", [], [E("span", [], body)])]
+    if p == 2:
+        return [E("section", [], [E("div", [], [E("p", [], body)]), E("br", [], [])])]
+    if p == 3:
+        return [E("div", [], [E("span", [("class", "c"), ("title", "t")], body)])]
+    if p == 4:
+        return [E("div", [], [E("span", [("title", norm_attr(s))], body)])]
+    if p == 5:
+        return [E("div", [], [E("span", [], body + [T(norm_body(s) if s else " ")])])]
+    if p == 6:
+        return [E("div", [], [E("textarea", [], rawk)])]
+    if p == 7:
+        return [E("textarea", [], rawk)]
+    if p == 8:
+        return [E("div", [], [E("script", [], rawk)])]
+    if p == 9:
+        return [E("div", [], [E("style", [], rawk)])]
+    if p == 10:
+        return [E("div", [], [E("b", [], [T("x")])] + body + [E("i", [], [T("y")])])]
+    return [E("ul", [], [E("li", [], body), E("li", [], [T("two")])])]
+
+
+_A0 = "a\"b<c>&amp;'"
+_A1 = "\"><img src=x onerror=alert(1)>"
+# (source form, the attributes it stands for)
+ATTR_FORMS = [
+    ('title="A0"', [("title", _A0)]), ('title={"A0"}', [("title", _A0)]), ('title=("A0")', [("title", _A0)]),
+    ("title=CONST_A0", [("title", _A0)]), ('title={String::from("A0")}', [("title", _A0)]),
+    ('title=concat!(..A0..)', [("title", _A0)]), ('class="A1"', [("class", _A1)]), ('class={"A1"}', [("class", _A1)]),
+    ('style="A1"', [("style", _A1)]), ('style={"A1"}', [("style", _A1)]), ('id="A1"', [("id", _A1)]),
+    ('id={"A1"}', [("id", _A1)]), ('data-x="A0"', [("data-x", _A0)]), ('data-x={"A0"}', [("data-x", _A0)]),
+    ('title="A0" class="A1" id={"A1"}', [("title", _A0), ("class", _A1), ("id", _A1)]),
+]
+ATTR_POSITIONS = ['<div A>"x"</div>', '<div><span A>"x"</span></div>', '<section><div><p A>"x"</p></div><br/></section>',
+                  "<div><span A>{s}</span></div>", "<div><input A/></div>", '<div><textarea A>"x"</textarea></div>',
+                  '<div><span A lang=s>"x"</span></div>']
+
+
+def attr_grid_expect(f, p, s):
+    at = list(ATTR_FORMS[f][1])
+    T = lambda x: ("text", x)
+    E = lambda name, attrs, kids: ("el", name, attrs, kids)
+    if p == 0:
+        return [E("div", at, [T("x")])]
+    if p == 1:
+        return [E("div", [], [E("span", at, [T("x")])])]
+    if p == 2:
+        return [E("section", [], [E("div", [], [E("p", at, [T("x")])]), E("br", [], [])])]
+    if p == 3:
+        return [E("div", [], [E("span", at, [T(norm_body(s) if s else " ")])])]
+    if p == 4:
+        return [E("div", [], [E("input", at, [])])]
+    if p == 5:
+        return [E("div", [], [E("textarea", at, [T("x")])])]
+    return [E("div", [], [E("span", at + [("lang", norm_attr(s))], [T("x")])])]
+
+
+def style_unterminated(nodes):
+    """a style value with or without its last ';' is the same declaration list"""
+    out = []
+    for n in nodes:
+        if n[0] == "el":
+            at = [(a, v[:-1] if a == "style" and v.endswith(";") else v) for a, v in n[2]]
+            n = ("el", n[1], sorted(at), style_unterminated(n[3]))
+        out.append(n)
+    return out
+
+
+def grid_breakout(c, p):
+    """a literal child of script / style that contains the element's own end tag (F-C06-b)"""
+    raw = "".join(GRID_CHILDREN[c][1]).lower()
+    return (p == 8 and ("</script" in raw or "<!--" in raw)) or (p == 9 and "</style" in raw)
+
+
 def generate(rng, tier):
     n = 5000 if tier == "quick" else 100000
     for k in range(N_STATIC):
         yield dict(case=[2, k], kind="static", compare=False)
+    for c in range(len(GRID_CHILDREN)):
+        for p in range(len(GRID_POSITIONS)):
+            s = [b('"><img src=x onerror=alert(1)>&amp;'), b(text(rng, 8))] if p in (4, 5) else [[]]
+            for x in s:
+                yield dict(case=[8, c, p, x], kind="static-grid", compare=False)
+    for f in range(len(ATTR_FORMS)):
+        for p in range(len(ATTR_POSITIONS)):
+            x = b(rng.choice(['"><img src=x onerror=alert(1)>&amp;', text(rng, 8)])) if p in (3, 6) else []
+            yield dict(case=[10, f, p, x], kind="static-grid", compare=False)
     for i in range(n):
         r = rng.random()
         if r < 0.55:
@@ -353,6 +510,8 @@ def generate(rng, tier):
             yield dict(case=gen_document(rng), kind="document", compare=True)
         elif r < 0.74:
             yield dict(case=gen_meta_doc(rng), kind="metadoc", compare=False)
+        elif r < 0.77:
+            yield dict(case=gen_keyed(rng), kind="keyed", compare=False)
         elif r < 0.84:
             yield dict(case=gen_stream(rng), kind="stream", compare=False)
         else:
@@ -843,7 +1002,7 @@ def oracle(item, impl):
         return ("parsed document differs from the view: " + d) if d else None
     nodes, notes = H.parse_fragment(html)
     if op == 5:
-        if case[1] == 1:
+        if case[1] & 1:
             nodes, probs = H.apply_leptos_ooo(nodes)
             if probs:
                 return "out-of-order stream: " + probs[0]
@@ -861,6 +1020,15 @@ def oracle(item, impl):
         if want is None:
             return None
         want = canon(want)
+    elif op == 9:
+        want = canon(keyed_expect(case[3]))
+    elif op == 10:
+        want = style_unterminated(canon(attr_grid_expect(case[1], case[2], s_of(case[3]))))
+        got = style_unterminated(got)
+    elif op == 8:
+        # text siblings: separated by <!> on the builder path, one text when inlined (C05/C07's concern)
+        want = merge_texts(canon(grid_expect(case[1], case[2], s_of(case[3]))))
+        got = merge_texts(got)
     else:
         return None
     d = first_diff(want, got)
@@ -872,6 +1040,8 @@ def classify(item, impl, model):
     for v in views_of(case):
         if rawtext_breakouts(v) or meta_breakouts(v):
             return "F-C06-b"
+    if case[0] == 8 and grid_breakout(case[1], case[2]):
+        return "F-C06-b"
     return None
 
 
@@ -897,6 +1067,18 @@ def valid_case(item):
         if op == 4:
             bytes(case[2]).decode("utf-8")
             return len(case) == 3 and 0 <= case[1] < N_TEMPLATES
+        if op == 9:
+            for r in case[3]:
+                bytes(r).decode("utf-8")
+            return len(case) == 4 and case[1] in (0, 1, 2) and case[2] in (0, 1, 2)
+        if op == 10:
+            bytes(case[3]).decode("utf-8")
+            return (len(case) == 4 and all(isinstance(x, int) for x in case[1:3])
+                    and 0 <= case[1] < len(ATTR_FORMS) and 0 <= case[2] < len(ATTR_POSITIONS))
+        if op == 8:
+            bytes(case[3]).decode("utf-8")
+            return (len(case) == 4 and all(isinstance(x, int) for x in case[1:3])
+                    and 0 <= case[1] < len(GRID_CHILDREN) and 0 <= case[2] < len(GRID_POSITIONS))
         if op == 3:
             if len(case) not in (7, 8):
                 return False
@@ -927,8 +1109,9 @@ def valid_case(item):
                     and not (case[1] == 1 and suspend_in_raw(case[2]))
                     and all(isinstance(k, int) and -1 <= k < 16 for k in case[3]))
         if op == 5:
-            return (len(case) == 4 and case[1] in (0, 1) and valid_view(case[2]) and not meta_nodes(case[2])
-                    and not (case[1] == 1 and suspend_in_raw(case[2]))
+            return (len(case) == 4 and case[1] in (0, 1, 2, 3) and valid_view(case[2]) and not meta_nodes(case[2])
+                    and not (case[1] & 1 and suspend_in_raw(case[2]))
+                    and not (case[1] & 2 and has_tag(case[2], (6, 7, 8, 9)))
                     and all(isinstance(k, int) and -1 <= k < 16 for k in case[3]))
         return False
     except Exception:
@@ -1108,8 +1291,20 @@ def describe(it):
             return "static view! #%d" % case[1]
         if case[0] == 4:
             return "view! template #%d with %r" % (case[1], s_of(case[2]))
+        if case[0] == 10:
+            return "view! { %s } with A = %s%s" % (ATTR_POSITIONS[case[2]], ATTR_FORMS[case[1]][0].replace("A0", _A0).replace("A1", _A1),
+                                                  (", s = %r" % s_of(case[3])) if case[2] in (3, 6) else "")
+        if case[0] == 8:
+            src = GRID_CHILDREN[case[1]][0].replace("L0", _L0).replace("L1", _L1).replace("L2", _L2).replace("L3", _L3)
+            return "view! { %s } with C = %s%s" % (GRID_POSITIONS[case[2]], src,
+                                                  (", s = %r" % s_of(case[3])) if case[2] in (4, 5) else "")
         if case[0] == 5:
-            return "%s stream, schedule %r, of %s" % ("out-of-order" if case[1] else "in-order", case[3], show_view(case[2]))
+            return "%s stream%s, schedule %r, of %s" % ("out-of-order" if case[1] & 1 else "in-order",
+                                                        " with branch markers" if case[1] & 2 else "", case[3], show_view(case[2]))
+        if case[0] == 9:
+            return "%s of a keyed list (%s) with the rows %r" % (
+                ["to_html_branching", "in-order branching stream", "out-of-order branching stream"][case[1]],
+                ["String key", "(String, usize) key", "leptos <For/>"][case[2]], [s_of(x) for x in case[3]])
         if case[0] == 6:
             return "document with leptos_meta through inject_meta_context, %s stream, schedule %r (k: future k completes, -1: poll), body %s" % (
                 "out-of-order" if case[1] else "in-order", case[3], show_view(case[2]))
@@ -1128,6 +1323,16 @@ def coverage_extra(results):
         case = r["item"]["case"]
         for v in views_of(case):
             _count(v, pos)
+        if case[0] == 6:
+            for late, m in meta_nodes(case[2]):
+                key = "%s%s component" % ("late " if late else "", META_KINDS[m[1]])
+                pos[key] = pos.get(key, 0) + 1
+        if case[0] == 9:
+            pos["keyed list key"] = pos.get("keyed list key", 0) + len(case[3])
+        if case[0] == 8:
+            pos["view! child form x position"] = pos.get("view! child form x position", 0) + 1
+        if case[0] == 10:
+            pos["view! literal attribute form x position"] = pos.get("view! literal attribute form x position", 0) + 1
         if case[0] == 3:
             pos["document title"] = pos.get("document title", 0) + len(case[1])
             pos["meta content"] = pos.get("meta content", 0) + len(case[2])
